@@ -52,3 +52,38 @@ Print Assumptions C02_reader.
 Print Assumptions C02_str.
 Print Assumptions C02_complete.
 Print Assumptions C02_integer_literal.
+From SJ Require Import Base.Bytes Base.Utf8 Base.FloatB Gen.Tables
+  Model.Read Model.Str Model.Num Model.Value Model.De Model.NumberM Model.Ty Model.DeTyped Model.ValueDe Model.NumberTarget
+  Model.RawM Model.RawDe Model.DeTok Spec.Syntax Spec.Denote Proofs.Total Proofs.RawNested Proofs.ApNumber Proofs.GrammarFinal.
+From Coq Require Import Lia ZifyBool ZifyNat ZifyN.
+From Coq Require Import String Ascii.
+From SJ Require Import Proofs.DeTokProps.
+Theorem C02_detok_conservative :
+  (forall E input, arbitrary_precision (cf E) = false -> from_input_tok E false input = of_res (from_input E input)) /\
+  (forall E raw_on input, no_token_doc E raw_on input = true -> from_input_tok E raw_on input = of_res (from_input E input)).
+Proof. exact (@DeTokProps.detok_conservative). Qed.
+Print Assumptions C02_detok_conservative.
+
+Theorem C02_detok_number_token_literal : forall k c rv w0 w1 w2 w3 key lit tail (n : numlit) w4 w5,  arbitrary_precision c = true ->
+  forallb is_ws w0 = true -> forallb is_ws w1 = true -> forallb is_ws w2 = true -> forallb is_ws w3 = true ->
+  str_ok key = true -> str_text key = Some NUMBER_TOKEN_V -> str_ok lit = true -> str_text lit = Some (render_num n) ->
+  num_ok n = true -> forallb is_ws w4 = true -> forallb is_ws w5 = true -> tail = w4 ++ 125 :: w5 ->
+  from_input_tok (mkEnv k TEof c) rv (tok_prefix w0 w1 w2 w3 key lit ++ tail) = NOk (VNum (NLit (render_num n))).
+Proof. exact (@DeTokProps.detok_number_token_literal). Qed.
+Print Assumptions C02_detok_number_token_literal.
+
+Theorem C02_detok_c02_without_token : forall c rv bs v,  Denotes c bs v -> no_token_doc (mkEnv RSlice TEof c) rv bs = true ->
+  from_input_tok (mkEnv RSlice TEof c) rv bs = NOk v.
+Proof. exact (@DeTokProps.detok_c02_without_token). Qed.
+Print Assumptions C02_detok_c02_without_token.
+
+Theorem C02_F23_token_object_read_as_number :
+  exists (inp : bytes) (v : value) (o : list (bytes * value)) (n : num),
+    arbitrary_precision cfA = true /\
+    (forall k, from_input_tok (EA k) false inp = NOk v) /\
+    Denotes cfA inp (VObj o) /\
+    from_input (EA RSlice) inp = Ok (VObj o) /\
+    v = VNum n.
+Proof. exact (@DeTokProps.detok_refutes_c02). Qed.
+Print Assumptions C02_F23_token_object_read_as_number.
+
